@@ -95,7 +95,7 @@ func TestC10_SlowConsumers(t *testing.T) {
 		}
 		var victims []*victim
 		var stalledFiltered []*node
-		refilteredStalled := false
+		refilteredStalled, partial := false, false
 		cachesCurrent := func() {
 			// the cache of a filtered subscription stays current although nobody reads its Events()
 			for _, n := range stalledFiltered {
@@ -216,6 +216,40 @@ func TestC10_SlowConsumers(t *testing.T) {
 				w.fail("healthy subscriber %s and its publisher's witness disagree: %d vs %d events, tails %v vs %v", n.path(), len(a), len(b), tail(a, 5), tail(b, 5))
 			}
 		}
+		// 4b. partial resume: a consumer that really overflowed reads r events and stops again; its
+		// buffer then has r free slots, so the next few events published to it (fewer than r, markers
+		// included) are within its capacity: "loses only events beyond its buffer capacity" - every one
+		// of them must be among what it finally delivers
+		type lateSet struct {
+			v        *victim
+			from, to int // indexes into the witness's event log
+		}
+		var late []lateSet
+		for _, v := range victims {
+			if v.n.kind != "sub" || v.witness.totalCount()-v.base <= kcache.EventBufsiz+2 || !rapid.Bool().Draw(t, "partialResume") {
+				continue
+			}
+			r := rapid.IntRange(25, 70).Draw(t, "resumeReads")
+			before := v.n.totalCount()
+			w.grantStalled(v.n, r)
+			deadline := time.Now().Add(wedgeBoundNow())
+			for v.n.totalCount() < before+r {
+				if time.Now().After(deadline) {
+					w.fail("stalled consumer %s resumed for %d events but only %d were delivered to it although its buffer was full", v.n.path(), r, v.n.totalCount()-before)
+				}
+				time.Sleep(50 * time.Microsecond)
+			}
+			from, fromTotal := v.witness.eventCount(), v.witness.totalCount()
+			for i := 0; i < rapid.IntRange(1, 10).Draw(t, "lateEvents"); i++ {
+				k := rapid.SampledFrom(keys).Draw(t, "k")
+				w.put(k[0], k[1], drawLabels(t))
+			}
+			w.checkQuiet()
+			cachesCurrent()
+			if v.witness.totalCount()-fromTotal <= r-6 {
+				late = append(late, lateSet{v, from, v.witness.eventCount()})
+			}
+		}
 		// 5. release the stalled consumers and judge what they hold
 		overBuf := false
 		for _, v := range victims {
@@ -259,6 +293,21 @@ func TestC10_SlowConsumers(t *testing.T) {
 				got = renderEvs(v.n.eventsFrom(0))
 			}
 			full := renderEvs(v.witness.eventsFrom(0))
+			for _, l := range late {
+				if l.v != v {
+					continue
+				}
+				have := map[string]bool{}
+				for _, g := range got {
+					have[g] = true
+				}
+				for _, e := range full[l.from:l.to] {
+					if !have[e] {
+						w.fail("stalled consumer %s overflowed, then read some events (freeing more buffer slots than were needed) and stopped again; %q, published to it afterwards, fitted into its buffer but was never delivered (events published to it after the partial resume: %v)", v.n.path(), e, full[l.from:l.to])
+					}
+				}
+				partial = true
+			}
 			if ok, at := isSubsequence(got, full); !ok {
 				w.fail("what stalled consumer %s received is not an in-order subsequence of what was published to it: element %d (%s) is out of order or was never published; received tail %v", v.n.path(), at, got[at], tail(got, 6))
 			}
@@ -288,6 +337,6 @@ func TestC10_SlowConsumers(t *testing.T) {
 		}
 		statCase("C10", hashString(strings.Join(w.hist, ";")), nt, func() interface{} {
 			return map[string]interface{}{"nodes": len(w.nodes), "stalled": vkinds, "events": total, "history_head": hist}
-		}, fmt.Sprintf("refiltered_a_stalled_filtered_subscription=%v", refilteredStalled), fmt.Sprintf("stalled=%d", min(len(victims), 3)), fmt.Sprintf("stream_over_buffer=%v", total > kcache.EventBufsiz), "typed_tree="+cfg.typed)
+		}, fmt.Sprintf("refiltered_a_stalled_filtered_subscription=%v", refilteredStalled), fmt.Sprintf("stalled=%d", min(len(victims), 3)), fmt.Sprintf("partial_resume_after_overflow=%v", partial), fmt.Sprintf("stream_over_buffer=%v", total > kcache.EventBufsiz), "typed_tree="+cfg.typed)
 	})
 }
